@@ -24,10 +24,20 @@
      ktype  nil never any (c C) (x C) (or A B) (and A B) (not A)
      kvalue (o C) | n
      kcond  (isa X C) (risa X C) (inst X C) (rinst X C) (not K) (and A B) (or A B)
-     kstmt  skip | (seq S...) | (probe K X) | (if KC S S) *)
+     kstmt  skip | (seq S...) | (probe K X) | (if KC S S)
+   generic classes / implicit interfaces (Model/C02_Iface.v)
+     G = (tab (cls (C FLAG (m NAME P R BODY)...)...) (ifc (I FLAG (m NAME P R)...)...))   FLAG is ignored here
+       P = - | bty     bty = Int | String | Float | nil | T | (or A B)     BODY = item | arg | (k ATOM Z)
+     gtype  (b bty) | (c C bty) | (i I bty)          gvalue (vb ATOM Z) | (vo C ATOM Z)
+     (ihist G (q A B)...)     -> ill-formed | v1,v2,...;alone=v1,v2,...     extracted `hist` (first half) and
+                                                                          `isub` on each question alone
+     (imem G gtype gvalue)    -> in | out                                   extracted `gmem_b`
+     (icall G C ATOM Z M ARG) -> none | (ATOM Z)        ARG = - | (ATOM Z)   extracted `gcall`
+     (iret G gtype M)         -> none | (atoms ATOM...)                     extracted `ret_atoms` *)
 open BinNums
 open C02_Types
 open C02_Classes
+open C02_Iface
 
 type sx = A of string | L of sx list
 
@@ -271,7 +281,103 @@ let krequest (x : sx) : string option =
       match static_target ct (kty_of t) with Some d -> Some (zs d) | None -> Some "dyn")
   | _ -> None
 
-let run (x : sx) : string = match krequest x with Some a -> a | None -> run x
+(* ---------------------------------------------------------------- generic classes / interfaces *)
+let atom_of = function
+  | "Int" -> AInt | "String" -> AStr | "Float" -> AFlt | "nil" -> ANil | _ -> failwith "atom"
+
+let show_atom = function AInt -> "Int" | AStr -> "String" | AFlt -> "Float" | ANil -> "nil"
+
+let rec bty_of (x : sx) : bty =
+  match x with
+  | A "T" -> BVar
+  | A a -> BAtom (atom_of a)
+  | L [ A "or"; a; b ] -> BOr (bty_of a, bty_of b)
+  | _ -> failwith "bty"
+
+let param_of (x : sx) : bty option = match x with A "-" -> None | p -> Some (bty_of p)
+
+let body_of (x : sx) : body =
+  match x with
+  | A "item" -> BdItem
+  | A "arg" -> BdArg
+  | L [ A "k"; A a; A k ] -> BdConst (atom_of a, z k)
+  | _ -> failwith "body"
+
+let tabs_of (x : sx) =
+  match x with
+  | L [ A "tab"; L (A "cls" :: cs); L (A "ifc" :: is) ] ->
+      ( List.map
+          (function
+            | L (A c :: A _ :: ms) ->
+                ( z c,
+                  List.map
+                    (function
+                      | L [ A "m"; A n; p; r; b ] -> (z n, ((param_of p, bty_of r), body_of b))
+                      | _ -> failwith "cmeth")
+                    ms )
+            | _ -> failwith "cls")
+          cs,
+        List.map
+          (function
+            | L (A i :: A _ :: ms) ->
+                ( z i,
+                  List.map
+                    (function L [ A "m"; A n; p; r ] -> (z n, (param_of p, bty_of r)) | _ -> failwith "imeth")
+                    ms )
+            | _ -> failwith "ifc")
+          is )
+  | _ -> failwith "tables"
+
+let gty_of (x : sx) : gty =
+  match x with
+  | L [ A "b"; b ] -> GB (bty_of b)
+  | L [ A "c"; A c; b ] -> GC (z c, bty_of b)
+  | L [ A "i"; A i; b ] -> GI (z i, bty_of b)
+  | _ -> failwith "gtype"
+
+let gval_of (x : sx) : gval =
+  match x with
+  | L [ A "vb"; A a; A k ] -> VB (atom_of a, z k)
+  | L [ A "vo"; A c; A a; A k ] -> VO (z c, (atom_of a, z k))
+  | _ -> failwith "gvalue"
+
+let irequest (x : sx) : string option =
+  match x with
+  | L (A "ihist" :: g :: qs) ->
+      let ct, it = tabs_of g in
+      if not (ctab_ok ct) then Some "ill-formed"
+      else
+        let qs = List.map (function L [ A "q"; a; b ] -> (gty_of a, gty_of b) | _ -> failwith "question") qs in
+        let show b = if b then "ok" else "reject" in
+        let together = List.map show (hist ct it qs) in
+        let alone = List.map (fun (a, b) -> show (isub ct it a b)) qs in
+        Some (String.concat "," together ^ ";alone=" ^ String.concat "," alone)
+  | L [ A "imem"; g; t; v ] ->
+      let ct, it = tabs_of g in
+      Some (if gmem_b ct it (gty_of t) (gval_of v) then "in" else "out")
+  | L [ A "icall"; g; A c; A a; A k; A m; arg ] -> (
+      let ct, _ = tabs_of g in
+      let arg = match arg with A "-" -> None | L [ A aa; A kk ] -> Some (atom_of aa, z kk) | _ -> failwith "arg" in
+      match gcall ct (z c) (atom_of a, z k) (z m) arg with
+      | None -> Some "none"
+      | Some (ra, rk) -> Some ("(" ^ show_atom ra ^ " " ^ zs rk ^ ")"))
+  | L [ A "iret"; g; t; A m ] -> (
+      let ct, it = tabs_of g in
+      let sigs, arg =
+        match gty_of t with
+        | GC (c, s) -> (csigs ct c, s)
+        | GI (i, s) -> (imeths it i, s)
+        | GB _ -> ([], BVar)
+      in
+      match ret_atoms sigs (bat [] arg) (z m) with
+      | None -> Some "none"
+      | Some l -> Some ("(atoms" ^ String.concat "" (List.map (fun a -> " " ^ show_atom a) l) ^ ")"))
+  | _ -> None
+
+let run (x : sx) : string =
+  match irequest x with
+  | Some a -> a
+  | None -> ( match krequest x with Some a -> a | None -> run x)
 
 let () =
   Zio.iter_lines (fun line ->
